@@ -7,6 +7,7 @@ from . import common
 from .common import cfloat, cZ, cbool, clist, copt, cpair
 
 INF = float("inf")
+ID0 = 10 ** 6      # explicit ids of generated messages: far above anything AbstractMessage.ids can reach in a run
 FAMS = ["normal", "natural", "gamma", "beta", "fixed"]
 CFAM = {"normal": "FNormal", "natural": "FNatural", "gamma": "FGamma", "beta": "FBeta", "fixed": "FFixed"}
 
@@ -207,16 +208,16 @@ def gen_alg(ctx, count):
                 if k == 0 and scalar and fam == "normal" and rng.random() < 0.3:
                     env.append(gen_prior_message(rng))
                 elif k > 0 and rng.random() < 0.25:
-                    env.append(gen_message(rng, fam, scalar, n, 1000 + k))        # transformed (op) base
+                    env.append(gen_message(rng, fam, scalar, n, ID0 + 1000 + k))        # transformed (op) base
                 else:
-                    env.append(gen_message(rng, fam, scalar, n, 1000 + k, tkind, stack))
+                    env.append(gen_message(rng, fam, scalar, n, ID0 + 1000 + k, tkind, stack))
             if "ctor" in env[0]:
                 for k in (1, 2):  # operands of a prior message must be scalar normals
                     if env[k].get("t"):
                         env[k]["t"]["stack"] = [["phi"], ["shift", hx(0.0), hx(1.0)]] if env[0]["ctor"] == "uniform_prior" else env[k]["t"]["stack"]
         else:
             for k in range(3):
-                env.append(gen_message(rng, fam, scalar, n, 1000 + k))
+                env.append(gen_message(rng, fam, scalar, n, ID0 + 1000 + k))
         exprs, info = law_exprs(rng, law, fam)
         if fam == "fixed":
             exprs = [(nm, e) for nm, e in exprs if "fromnat" not in json.dumps(e)]
@@ -281,7 +282,7 @@ def gen_proj(ctx, count):
         c = {"kind": "proj", "fam": fam, "scalar": scalar, "d": d, "n": n, "exact": exact,
              "samples": [[hx(v) for v in row] for row in X],
              "log_weights": None if LW is None else [[hx(v) for v in row] for row in LW],
-             "id": 2000 + i % 7, "lo": hx(lo), "hi": hx(hi), "t": None}
+             "id": ID0 + 2000 + i % 7, "lo": hx(lo), "hi": hx(hi), "t": None}
         if rng.random() < 0.25 and fam in ("normal", "gamma"):
             # samples are drawn in the base space and mapped to the space of the transformed message
             tkind = rng.choice(["shifted", "lognormal", "uniform"]) if fam == "normal" else "shifted"
@@ -292,9 +293,9 @@ def gen_proj(ctx, count):
             X = [[inverse_stack(stack, z) for z in row] for row in Z]
             c["samples"] = [[hx(v) for v in row] for row in X]
             c["exact"] = False
-            c["base"] = gen_message(rng, fam, scalar, d, 3000)
+            c["base"] = gen_message(rng, fam, scalar, d, ID0 + 3000)
             tlo, thi = gen_limits(rng)
-            c["t"] = {"stack": stack, "id": None if rng.random() < 0.5 else 3500, "lo": hx(tlo), "hi": hx(thi), "kind": tkind}
+            c["t"] = {"stack": stack, "id": None if rng.random() < 0.5 else ID0 + 3500, "lo": hx(tlo), "hi": hx(thi), "kind": tkind}
         cases.append(c)
     return cases
 
@@ -306,7 +307,7 @@ def gen_dens(ctx, count):
         r = rng.random()
         if r < 0.5:
             fam = rng.choice(["normal", "natural", "gamma", "beta"])
-            spec = gen_message(rng, fam, True, 1, 4000)
+            spec = gen_message(rng, fam, True, 1, ID0 + 4000)
             if fam in ("gamma", "beta"):   # keep the density bounded at the ends of the support
                 spec["params"] = [[hx(1.0 + pos(rng))], [hx((1.0 if fam == "beta" else 0.0) + pos(rng))]]
         elif r < 0.7:
@@ -315,7 +316,7 @@ def gen_dens(ctx, count):
                 spec["b"] = hx(rng.choice([0.25, 0.5, 0.75, 1.0, 1.5]))
         else:
             tkind = rng.choice(STACKS)
-            spec = gen_message(rng, "normal", True, 1, 4000, tkind, gen_stack(rng, tkind))
+            spec = gen_message(rng, "normal", True, 1, ID0 + 4000, tkind, gen_stack(rng, tkind))
             # moderate location/spread so that quadrature in the transformed space is reliable
             # (under phi the density is unbounded at the ends of the support when sigma > 1)
             spec["params"] = [[hx(dy(rng, -1, 1))], [hx(rng.choice([0.25, 0.5, 0.75, 1.0]))]]
@@ -330,13 +331,13 @@ def gen_hist(ctx, count):
     for k in range(count):
         fam = rng.choice(["normal", "natural", "gamma", "beta"])
         n = rng.randint(2, 4)
-        msg = gen_message(rng, fam, False, n, 6000)
+        msg = gen_message(rng, fam, False, n, ID0 + 6000)
         steps = []
         for _ in range(rng.choice([1, 2, 2, 3])):
             i = rng.randrange(n)
             if steps and rng.random() < 0.3:
                 i = steps[-1][0]                     # overwrite the same entry again
-            steps.append([i, gen_message(rng, fam, True, 1, 6100 + len(steps))])
+            steps.append([i, gen_message(rng, fam, True, 1, ID0 + 6100 + len(steps))])
         if fam in ("normal", "natural"):
             x = [anyreal(rng) for _ in range(n)]
         elif fam == "gamma":
@@ -418,6 +419,154 @@ def coq_hist(c, res):
     return "CHist %s %s %s %s" % (CFAM[c["fam"]], e0, steps, clist(obs))
 
 
+def gen_mixed(ctx, count):
+    """array message (op) scalar message of the same family (quantifier: scalars and arrays)"""
+    rng = ctx.rng
+    cases = []
+    a, b = V(0), V(1)
+    for k in range(count):
+        fam = rng.choice(["normal", "natural", "gamma", "beta"])
+        n = rng.choice([2, 2, 3, 4])
+        env = [gen_message(rng, fam, False, n, ID0 + 7000), gen_message(rng, fam, True, 1, ID0 + 7001),
+               gen_message(rng, fam, True, 1, ID0 + 7002)]
+        exprs = [["ab", ["mul", a, b]], ["ba", ["mul", b, a]], ["adb", ["div", a, b]], ["bda", ["div", b, a]]]
+        cases.append({"kind": "alg", "mixed": True, "fam": fam, "scalar": False, "n": n, "transformed": False,
+                      "law": "mixed", "env": env, "exprs": exprs, "info": {}})
+    return cases
+
+
+def gen_mixedparam(ctx, count):
+    """one message whose parameters have different shapes"""
+    rng = ctx.rng
+    cases = []
+    for k in range(count):
+        fam = rng.choice(["normal", "natural", "gamma", "beta"])
+        n = rng.randint(2, 4)
+        full = gen_params(rng, fam, n)
+        which = rng.choice([0, 1])          # the parameter that stays scalar
+        params = [[hx(v) for v in p] for p in full]
+        params[which] = params[which][:1]
+        # np.array([a, b]) of a length-n array and a scalar is ragged unless numpy can broadcast the arithmetic first
+        inhomogeneous = not (fam == "normal" and which == 0)
+        if fam in ("normal", "natural"):
+            x = [anyreal(rng) for _ in range(n)]
+        elif fam == "gamma":
+            x = [pos(rng) for _ in range(n)]
+        else:
+            x = [rng.uniform(0.05, 0.95) for _ in range(n)]
+        cases.append({"kind": "mixedparam", "fam": fam, "n": n, "params": params, "scalar_param": which,
+                      "inhomogeneous": inhomogeneous, "x": [hx(v) for v in x]})
+    return cases
+
+
+def gen_lpdf(ctx, count):
+    """logpdf / pdf (and factor of transformed messages) at scalar, array and batched points"""
+    rng = ctx.rng
+    cases = []
+    for k in range(count):
+        fam = rng.choice(["normal", "natural", "gamma", "beta"])
+        scalar = rng.random() < 0.4
+        n = 1 if scalar else rng.randint(1, 4)
+        transformed = rng.random() < 0.25
+        if transformed:
+            fam = "normal"
+            tkind = rng.choice(STACKS)
+            msg = gen_message(rng, fam, scalar, n, ID0 + 8000, tkind, gen_stack(rng, tkind))
+            msg["params"] = [[hx(dy(rng, -1, 1)) for _ in range(n)], [hx(rng.choice([0.25, 0.5, 0.75, 1.0])) for _ in range(n)]]
+        else:
+            msg = gen_message(rng, fam, scalar, n, ID0 + 8000)
+            if fam == "beta" and rng.random() < 0.2:
+                msg["params"] = [[hx(0.5)] * n, [hx(0.5)] * n]        # the class default
+        batch = rng.random() < 0.5
+        rows = rng.randint(1, 3) if batch else 1
+        x_scalar = scalar and not batch and rng.random() < 0.6
+        X = []
+        for _ in range(rows):
+            row = []
+            for j in range(n):
+                if transformed:
+                    z = unhex(msg["params"][0][j]) + unhex(msg["params"][1][j]) * rng.uniform(-1.5, 1.5)
+                    row.append(inverse_stack(msg["t"]["stack"], z))
+                elif fam in ("normal", "natural"):
+                    row.append(anyreal(rng))
+                elif fam == "gamma":
+                    row.append(pos(rng))
+                else:
+                    row.append(rng.uniform(0.02, 0.98))
+            X.append([hx(v) for v in row])
+        cases.append({"kind": "lpdf", "fam": fam, "scalar": scalar, "n": n, "msg": msg, "batch": batch,
+                      "x_scalar": x_scalar, "x": X})
+    return cases
+
+
+def lp_elem_scale(fam, elem, x):
+    """size of the terms that cancel inside natural_logpdf (bounds its rounding error)"""
+    try:
+        e = nat_from_elems(fam, [elem])[0]
+        if fam in ("normal", "natural"):
+            t = [x, x * x]
+        elif fam == "gamma":
+            t = [math.log(x), x]
+        else:
+            t = [math.log(x), math.log1p(-x)]
+        return max(1.0, abs(e[0] * t[0]), abs(e[1] * t[1]))
+    except (ValueError, OverflowError, ZeroDivisionError):
+        return 1.0
+
+
+def oracle_lpdf(c, res):
+    out = []
+    d = res["desc"]
+    transformed = d.get("t") is not None
+    elems = base_of(d)["elems"]
+    fam = base_of(d)["fam"]
+    rows = [[unhex(h) for h in r] for r in c["x"]]
+    lib_lp, lib_ld = res["lib_lp"], res["lib_logd"]
+    for q in (["logpdf", "pdf"] + (["factor", "tdet_y"] if transformed else [])):
+        if isinstance(res.get(q), str):
+            out.append(("exception", "%s: %s" % (q, res[q])))
+    if isinstance(res.get("logpdf"), str):
+        return out
+    if len(res["logpdf"]) != len(rows) or any(len(r) != len(elems) for r in res["logpdf"]):
+        return out + [("logpdf-shape", "logpdf has shape %r for x of shape %r" % ([len(res["logpdf"]), len(res["logpdf"][0])], [len(rows), len(elems)]))]
+    for i, r in enumerate(rows):
+        for j, x in enumerate(r):
+            lb, ld, got = unhex(lib_lp[i][j]), unhex(lib_ld[i][j]), unhex(res["logpdf"][i][j])
+            tol = 1e-10 * max(lp_elem_scale(fam, elems[j], x) if not transformed else 1.0, abs(lb), abs(ld), 1.0)
+            if not close(got, lb + ld, tol):
+                if transformed and close(got, lb, tol):
+                    out.append(("logpdf@no-jacobian", "logpdf[%d][%d] = %r is the base density at T x without log T'(x) = %r" % (i, j, got, ld)))
+                else:
+                    out.append(("logpdf-pointwise", "logpdf[%d][%d] at x = %r is %r, library density %r (+ log-det %r)" % (i, j, x, got, lb, ld)))
+            if not isinstance(res.get("pdf"), str):
+                pv = unhex(res["pdf"][i][j])
+                if not close(pv, math.exp(got) if got < 700 else INF, 1e-12 * max(1e-300, abs(pv))):
+                    out.append(("pdf-exp", "pdf[%d][%d] = %r is not exp(logpdf) = %r" % (i, j, pv, math.exp(got))))
+            if transformed and not isinstance(res.get("factor"), str):
+                fv = unhex(res["factor"][i][j])
+                if not close(fv, lb + ld, 1e-9 * max(1.0, abs(lb), abs(ld))):
+                    out.append(("factor-pointwise", "factor[%d][%d] at x = %r is %r, library density + log-det = %r" % (i, j, x, fv, lb + ld)))
+            if transformed and not isinstance(res.get("tdet_y"), str):
+                if not close(unhex(res["tdet_logd"][i][j]), ld, 1e-9 * max(1.0, abs(ld))):
+                    out.append(("logdet", "_transform_det logd[%d][%d] = %r, library value %r" % (i, j, unhex(res["tdet_logd"][i][j]), ld)))
+    seen, uniq = set(), []
+    for a_, m_ in out:
+        if a_ not in seen:
+            seen.add(a_)
+            uniq.append((a_, m_))
+    return uniq
+
+
+def coq_lpdf(c, res):
+    d = res["desc"]
+    if d.get("t") is not None or isinstance(res.get("logpdf"), str):
+        return None
+    es = clist([clist([cf(x) for x in e]) for e in d["elems"]])
+    xs = clist([clist([cf(h) for h in r]) for r in c["x"]])
+    obs = clist([clist([cf(h) for h in r]) for r in res["logpdf"]])
+    return "CLogpdf %s %s %s %s %s %s %s" % (c_tabs(res["tabs"]), CFAM[c["fam"]], cbool(c["scalar"]), cbool(c["x_scalar"]), es, xs, obs)
+
+
 def gen_det(ctx, count):
     rng = ctx.rng
     cases = []
@@ -430,7 +579,7 @@ def gen_det(ctx, count):
                 spec["b"] = hx(rng.choice([0.25, 0.5, 0.75, 1.0, 1.5]))
         else:
             tkind = rng.choice(STACKS)
-            spec = gen_message(rng, "normal", True, 1, 5000, tkind, gen_stack(rng, tkind))
+            spec = gen_message(rng, "normal", True, 1, ID0 + 5000, tkind, gen_stack(rng, tkind))
             spec["params"] = [[hx(dy(rng, -1, 1))], [hx(rng.choice([0.25, 0.5, 0.75, 1.0]))]]
         cases.append({"kind": "det", "msg": spec, "q": [rng.uniform(0.1, 0.9) for _ in range(3)]})
     return cases
@@ -547,38 +696,39 @@ def combine(na, nb, f):
 # property oracle
 # ---------------------------------------------------------------------------
 def case_classes(c, res, aspect):
-    """finding classes of a failing sub-check: computed from the CASE and the violated aspect"""
+    """finding classes of a failing sub-check.  A class is given only when (1) the CASE is of the kind the finding
+    describes and (2) the oracle found EXACTLY the value the finding predicts (aspects written `<aspect>@<pin>`);
+    any other wrong value is a VIOLATION."""
     cl = []
     if c["kind"] == "alg":
-        env = res["env"]
-        a = env[0]
-        lognorms = [unhex(base_of(e)["log_norm"]) for e in env]
-        if aspect == "log_norm" and c["law"] in ("divmul", "muldiv", "powadd", "zeros", "assoc") and any(v != 0.0 for v in lognorms):
+        if aspect == "log_norm@product-drops":
             cl.append("product-drops-lognorm")
-        if aspect == "t-limits" and a.get("t") is not None and (unhex(a["t"]["lo"]), unhex(a["t"]["hi"])) != (-INF, INF):
-            cl.append("transformed-drops-limits")
-        if aspect == "zeros-nat" and a.get("t") is not None and base_of(a)["fam"] == "normal":
-            cl.append("transformed-normal-zeros-like")
+        if aspect == "log_norm@fixed-sdiv" and c["fam"] == "fixed":
+            cl.append("fixed-sdiv")
+        if aspect in ("mixed@broadcast-axis", "mixed@raises") and c.get("mixed"):
+            cl.append("mixed-shape-broadcast")
+    elif c["kind"] == "mixedparam":
+        if aspect == "mixedparam@raises":
+            cl.append("mixed-parameter-shapes")
     elif c["kind"] == "proj":
-        if aspect == "exception" and c["fam"] == "beta":
-            cl.append("beta-project-raises")
         if c.get("t") is not None:
             nonid = any(t[0] != "shift" or (unhex(t[1]), unhex(t[2])) != (0.0, 1.0) for t in c["t"]["stack"])
-            if aspect == "exception" and nonid and res.get("exc") == "AssertionError":
-                cl.append("transformed-project-raw-samples")   # raw samples fall outside the support of the base
-            if aspect == "stats" and any(t[0] != "shift" or (unhex(t[1]), unhex(t[2])) != (0.0, 1.0) for t in c["t"]["stack"]):
+            outside = c["fam"] == "gamma" and any(unhex(h) <= 0.0 for row in c["samples"] for h in row)
+            if aspect == "exception" and nonid and outside and res.get("exc") == "AssertionError":
+                cl.append("transformed-project-raw-samples")   # a raw sample is outside the support of the base
+            if aspect == "stats@raw-samples" and nonid:
                 cl.append("transformed-project-raw-samples")
             if aspect in ("t-limits", "limits", "id"):
                 cl.append("transformed-project-drops-kwargs")
-    elif c["kind"] == "dens":
+    elif c["kind"] in ("dens", "lpdf"):
         d = res["desc"]
         if d.get("t") is not None:
             st = d["t"]["stack"]
             nontrivial = any(t[0] != "shift" or unhex(t[2]) != 1.0 for t in st)
             nonlinear = any(t[0] != "shift" for t in st)
-            if aspect == "pdf-norm" and nontrivial:
+            if aspect in ("pdf-norm@no-jacobian", "logpdf@no-jacobian") and nontrivial:
                 cl.append("transformed-logpdf-omits-jacobian")
-            if aspect in ("mean", "variance") and nonlinear:
+            if aspect in ("mean@first-order", "variance@first-order") and nonlinear:
                 cl.append("transformed-moments-first-order")
     return cl
 
@@ -605,26 +755,52 @@ def oracle_alg(c, res):
         return strictly_valid(b["fam"], b["elems"])
 
     a, b, cc = env[0], env[1], env[2]
-    if law != "rand":
-        for name in R:
-            if "exc" in R[name]:
-                mixed_div = any(e.get("t") is None for e in env) and any(e.get("t") is not None for e in env)
-                if not mixed_div:
-                    out.append(("exception", "%s raised %s: %s" % (name, R[name]["exc"], R[name].get("msg"))))
-                return out
+    exprs = dict((nm, e) for nm, e in c["exprs"])
+    if c.get("mixed"):
+        return oracle_mixed(c, res)
+    # the only legitimate exception: <base message> / <transformed message> reads other.log_norm, which a
+    # TransformedMessage does not have (AttributeError); predicted from the expression, everything else is a failure
+    raised = False
+    for name in R:
+        expected = base_div_transformed(exprs[name], env)
+        if "exc" in R[name]:
+            raised = True
+            if not (expected and R[name]["exc"] == "AttributeError"):
+                out.append(("exception", "%s raised %s: %s" % (name, R[name]["exc"], R[name].get("msg"))))
+        elif expected:
+            out.append(("exception-expected", "%s: <base> / <transformed> did not raise" % name))
+    for name in R:
+        if "ok" in R[name]:
+            d0 = base_of(R[name]["ok"])
+            if d0.get("nat") is not None and d0["fam"] is not None and d0["valid"] != closed_valid(d0):
+                out.append(("is-valid", "%s: is_valid = %r but parameters %r / natural parameters %r say %r" % (
+                    name, d0["valid"], d0["elems"], d0["nat"], closed_valid(d0))))
+    if raised or law == "rand":
+        return out
     all_nats = [nat(e) for e in env] + [nat(R[n]["ok"]) for n in R if "ok" in R[n]]
     scale = nat_scale(*all_nats)
     if fam == "fixed":
         # arithmetic on a fixed message is the identity: every law holds with "equals a"
-        exprs = dict((nm, e) for nm, e in c["exprs"])
         for name in R:
-            if ok(name) and "sdiv" not in json.dumps(exprs[name]):
-                for asp in compare_full(desc(name), env[leftmost(exprs[name])], scale):
-                    out.append((asp, "%s: fixed message changed in %s" % (name, asp)))
+            if not ok(name):
+                continue
+            target = env[leftmost(exprs[name])]
+            pinned_ln = unhex(base_of(target)["log_norm"])
+            for cc_ in spine_sdivs(exprs[name]):          # the code subtracts log(c) for every `/ real` on the spine
+                pinned_ln = pinned_ln - math.log(cc_)
+            for asp in compare_full(desc(name), target, scale):
+                if asp == "log_norm" and spine_sdivs(exprs[name]) and \
+                        close(unhex(base_of(desc(name))["log_norm"]), pinned_ln, 1e-12 * max(1.0, abs(pinned_ln))):
+                    asp = "log_norm@fixed-sdiv"
+                out.append((asp, "%s: fixed message changed in %s" % (name, asp)))
         return out
 
-    def same(name_x, target, what):
-        for asp in compare_full(desc(name_x) if isinstance(name_x, str) else name_x, target, scale):
+    def same(name_x, target, what, pinned_ln=None):
+        dx = desc(name_x) if isinstance(name_x, str) else name_x
+        for asp in compare_full(dx, target, scale):
+            if asp == "log_norm" and pinned_ln is not None and \
+                    close(unhex(base_of(dx)["log_norm"]), pinned_ln, 1e-12 * max(1.0, abs(pinned_ln))):
+                asp = "log_norm@product-drops"       # exactly the value C17_*_partial predicts for the defect
             out.append((asp, "%s: differs in %s" % (what, asp)))
 
     def additive(name, expect, what):
@@ -643,18 +819,18 @@ def oracle_alg(c, res):
         div_lognorm(desc("r"), desc("ab"), b, "(a*b)/b")
         if valid(desc("ab")):
             additive("ab", combine(nat(a), nat(b), lambda x, y: x + y), "a*b")
-            same("r", a, "(a*b)/b vs a")
+            same("r", a, "(a*b)/b vs a", pinned_ln=0.0 - unhex(base_of(b)["log_norm"]))
     elif law == "muldiv":
         div_lognorm(desc("q"), a, b, "a/b")
         if valid(desc("q")):
             additive("q", combine(nat(a), nat(b), lambda x, y: x - y), "a/b")
-            same("r", a, "(a/b)*b vs a")
+            same("r", a, "(a/b)*b vs a", pinned_ln=0.0)
     elif law == "powadd":
         j, k = unhex(c["info"]["j"]), unhex(c["info"]["k"])
         if valid(desc("pj")) and valid(desc("pk")) and valid(desc("p")):
             additive("pj", [[j * v for v in r] for r in nat(a)], "a**j")
             additive("p", [[(j + k) * v for v in r] for r in nat(a)], "a**(j+k)")
-            same("r", desc("p"), "a**j * a**k vs a**(j+k)")
+            same("r", desc("p"), "a**j * a**k vs a**(j+k)", pinned_ln=0.0)
     elif law == "powmul":
         if valid(desc("pj")) and valid(desc("q")):
             same("p", desc("q"), "(a**j)**k vs a**(j*k)")
@@ -671,7 +847,7 @@ def oracle_alg(c, res):
         if not all(v == 0.0 for r in z for v in r):
             out.append(("zeros-nat", "zeros_like(a) has natural parameters %r" % z))
         else:
-            same("r", a, "a * zeros_like(a) vs a")
+            same("r", a, "a * zeros_like(a) vs a", pinned_ln=0.0)
         if base_of(a)["fam"] != "normal":
             p0 = nat(desc("p0"))
             if not all(v == 0.0 for r in p0 for v in r):
@@ -706,6 +882,130 @@ def leftmost(e):
     while e[0] != "var":
         e = e[1]
     return e[1]
+
+
+def spine_sdivs(e):
+    """the real divisors met on the leftmost spine of an expression"""
+    out = []
+    while e[0] != "var":
+        if e[0] == "sdiv":
+            out.append(unhex(e[2]))
+        e = e[1]
+    return out[::-1]
+
+
+def wrap_kind(e, env):
+    return "T" if env[leftmost(e)].get("t") is not None else "B"
+
+
+def base_div_transformed(e, env):
+    if e[0] == "var":
+        return False
+    if e[0] == "div" and wrap_kind(e[1], env) == "B" and wrap_kind(e[2], env) == "T" and base_of(env[leftmost(e[1])])["fam"] != "fixed":
+        return True
+    return any(base_div_transformed(x, env) for x in e[1:] if isinstance(x, list))
+
+
+def closed_valid(d):
+    """MessageInterface.is_valid: finite natural parameters and parameters inside the CLOSED parameter support"""
+    for row in d["nat"]:
+        if not all(math.isfinite(unhex(v)) for v in row):
+            return False
+    fam = d["fam"]
+    for e in d["elems"]:
+        p = [unhex(x) for x in e]
+        if fam == "fixed":
+            continue
+        if any(math.isnan(v) for v in p):
+            return False
+        if fam == "normal" and not p[1] >= 0:
+            return False
+        if fam == "natural" and not p[1] <= 0:
+            return False
+        if fam in ("gamma", "beta") and not (p[0] >= 0 and p[1] >= 0):
+            return False
+    return True
+
+
+def params_from_nat(fam, e):
+    """invert_natural_parameters in plain Python (nan/inf propagate as in IEEE arithmetic)"""
+    def div(a, b):
+        try:
+            return a / b
+        except ZeroDivisionError:
+            return float("nan") if a == 0 or math.isnan(a) else math.copysign(INF, a) * math.copysign(1.0, b)
+    if fam == "normal":
+        v = div(-0.5, e[1])
+        return [div(-0.5 * e[0], e[1]), math.sqrt(v) if v >= 0 else float("nan")]
+    if fam == "natural":
+        return list(e)
+    if fam == "gamma":
+        return [e[0] + 1.0, -e[1]]
+    return [e[0] + 1.0, e[1] + 1.0]
+
+
+def same_or_nan(a, b, tol):
+    if math.isnan(a) or math.isnan(b):
+        return math.isnan(a) and math.isnan(b)
+    return close(a, b, tol)
+
+
+def oracle_mixed(c, res):
+    """array message (op) scalar message: the natural parameters of the scalar must be added to EVERY element.
+    Known defect, pinned: the (2,n) and (2,) arrays are broadcast along the wrong axis -- a ValueError for n != 2,
+    and for n = 2 element j gets the j-th natural parameter of the scalar added to both of its parameters."""
+    out = []
+    env, R = res["env"], res["results"]
+    fam = c["fam"]
+    A = nat_from_elems(fam, env[0]["elems"])
+    sc = nat_from_elems(fam, env[1]["elems"])[0]
+    n = len(A)
+    sign = {"ab": (1, 1), "ba": (1, 1), "adb": (1, -1), "bda": (-1, 1)}
+    for name, (sa, sb) in sign.items():
+        r = R[name]
+        right = [[sa * A[j][k] + sb * sc[k] for k in range(2)] for j in range(n)]
+        wrong = [[sa * A[j][k] + sb * sc[j] for k in range(2)] for j in range(n)] if n == 2 else None
+        if "exc" in r:
+            if n != 2 and r["exc"] == "ValueError":
+                out.append(("mixed@raises", "%s raised ValueError (operands could not be broadcast)" % name))
+            else:
+                out.append(("exception", "%s raised %s: %s" % (name, r["exc"], r.get("msg"))))
+            continue
+        d = r["ok"]
+        got = [[unhex(x) for x in e] for e in d["elems"]]
+        scale = nat_scale(A, [sc])
+        def matches(nat):
+            exp = [params_from_nat(fam, e) for e in nat]
+            return len(got) == len(exp) and all(same_or_nan(g, x, 1e-9 * max(1.0, scale, abs(x) if math.isfinite(x) else 1.0))
+                                                for gr, er in zip(got, exp) for g, x in zip(gr, er))
+        if matches(right):
+            continue
+        if wrong is not None and matches(wrong):
+            out.append(("mixed@broadcast-axis", "%s: parameters %r are those of a broadcast along the parameter axis, expected %r"
+                        % (name, got, [params_from_nat(fam, e) for e in right])))
+        else:
+            out.append(("mixed", "%s: parameters %r, expected %r" % (name, got, [params_from_nat(fam, e) for e in right])))
+    return out
+
+
+def oracle_mixedparam(c, res):
+    out = []
+    if "ctor_exc" in res:
+        return [("exception", "constructor raised " + res["ctor_exc"])]
+    ref = res["ref"]
+    for q in ("nat", "logpdf", "pow"):
+        got, exp = res.get(q), ref.get(q)
+        if isinstance(got, str):
+            if got == "exc:ValueError" and c["inhomogeneous"]:
+                out.append(("mixedparam@raises", "%s raises ValueError for parameters of shapes %r (np.array of a ragged list)"
+                            % (q, [len(p) for p in c["params"]])))
+            else:
+                out.append(("exception", "%s gave %s" % (q, got)))
+        elif isinstance(exp, list) and not same_hex(got, exp):
+            out.append(("mixedparam", "%s = %r differs from the message with broadcast parameters %r" % (q, got, exp)))
+    if res.get("shape") != ref["shape"]:
+        out.append(("mixedparam-shape", "shape %r, expected %r" % (res.get("shape"), ref["shape"])))
+    return out
 
 
 def dict_with_nat_of(x, a):
@@ -755,16 +1055,43 @@ def oracle_proj(c, res):
     except ValueError:
         target = None
     got = [[unhex(h) for h in row] for row in res["member_stats"]]
-    rel = 1e-9 if fam in ("normal", "natural") else 1e-6
-    if target is None:
-        out.append(("stats", "samples outside the support of the base family (transformed samples not mapped)"))
-    else:
+    rel = 1e-9
+    # pinned defect of TransformedMessage.project: the member matches the statistics of the RAW samples
+    raw_target = None
+    if c.get("t") is not None:
+        try:
+            raw_target, _ = weighted_stats(fam, [[unhex(h) for h in row] for row in c["samples"]], LW)
+        except ValueError:
+            raw_target = None
+
+    def agrees(tg):
+        if tg is None:
+            return False
         for k in range(2):
-            for j, (g, t) in enumerate(zip(got[k], target[k])):
-                sc = max(1.0, abs(t), abs(target[0][j]) ** 2 if fam in ("normal", "natural") else 1.0)
+            for j, (g, t) in enumerate(zip(got[k], tg[k])):
+                sc = max(1.0, abs(t), abs(tg[0][j]) ** 2 if fam in ("normal", "natural") else 1.0)
                 if not close(g, t, rel * sc):
-                    out.append(("stats", "sufficient statistic %d of element %d is %r, sample moment is %r" % (k, j, g, t)))
-                    break
+                    return (k, j, g, t)
+        return True
+
+    verdict = agrees(target) if target is not None else False
+    if verdict is not True:
+        pinned = agrees(raw_target) is True
+        asp = "stats@raw-samples" if pinned else "stats"
+        if target is None:
+            out.append((asp, "transformed samples are outside the support of the base family"))
+        else:
+            k, j, g, t = verdict
+            out.append((asp, "sufficient statistic %d of element %d is %r, sample moment is %r" % (k, j, g, t)))
+    # the Newton inverse used for gamma moment matching against an independent root finder
+    exact = dict((k, (e, t)) for k, e, t in res.get("tabs", {}).get("ipl_exact", []))
+    for k, v in res.get("tabs", {}).get("ipl", []):
+        if k not in exact:
+            continue
+        ev, tol = unhex(exact[k][0]), unhex(exact[k][1])
+        if not math.isnan(ev) and not close(unhex(v), ev, tol * max(1.0, abs(ev))):
+            out.append(("invpsilog-accuracy", "invpsilog(%r) = %r, root of digamma(x) - log(x) = c is %r (tolerance %.1e)" % (unhex(k), unhex(v), ev, tol)))
+            break
     # log_norm = log of the mean weight
     if LW is None:
         lns = b["log_norm"] if isinstance(b["log_norm"], list) else [b["log_norm"]]
@@ -798,16 +1125,25 @@ def oracle_dens(c, res):
             continue
         z = unhex(r["norm"])
         if not close(z, 1.0, 1e-6):
-            out.append((kind + "-norm", "%s integrates to %r over the support" % (kind, z)))
+            asp = kind + "-norm"
+            if kind == "pdf" and transformed and nojac_everywhere(res):
+                asp = "pdf-norm@no-jacobian"
+            out.append((asp, "%s integrates to %r over the support" % (kind, z)))
+    out += pointwise_logpdf(res, transformed)
     r = res.get(main, {})
     if "exc" in r or "norm" not in r:
         return out
     m1, var = unhex(r["mean"]), unhex(r["var"])
     if "mean" in res:
-        if not close(unhex(res["mean"]), m1, 1e-6 * max(1.0, abs(m1))):
-            out.append(("mean", "reported mean %r, density has mean %r" % (unhex(res["mean"]), m1)))
-        if not close(unhex(res["variance"]), var, 1e-6 * max(1.0, abs(var))):
-            out.append(("variance", "reported variance %r, density has variance %r" % (unhex(res["variance"]), var)))
+        for nm, rep_, true, fo in (("mean", unhex(res["mean"]), m1, res.get("first_order_mean")),
+                                   ("variance", unhex(res["variance"]), var, res.get("first_order_var"))):
+            if not close(rep_, true, 1e-6 * max(1.0, abs(true))):
+                asp = nm
+                if transformed and fo is not None and close(rep_, unhex(fo), 1e-9 * max(1.0, abs(unhex(fo)))):
+                    asp = nm + "@first-order"      # exactly the delta-method value, computed independently
+                out.append((asp, "reported %s %r, density has %s %r" % (nm, rep_, nm, true)))
+    elif "mean_exc" in res:
+        out.append(("exception", "mean/variance raised " + res["mean_exc"]))
     if "cdf_exc" in res:
         out.append(("exception", "cdf/value_for raised " + res["cdf_exc"]))
     if "cdf_slope" in res:
@@ -821,8 +1157,43 @@ def oracle_dens(c, res):
     return out
 
 
+def lp_tol(lp, ld=0.0):
+    return 1e-9 * max(1.0, abs(lp), abs(ld))
+
+
+def nojac_everywhere(res):
+    """the reported logpdf is, at every test point, the base density at T x WITHOUT the log-determinant"""
+    if "lp_points" not in res:
+        return False
+    return all(close(unhex(a), unhex(b), lp_tol(unhex(b))) for a, b in zip(res["lp_points"], res["lp_base_at_Tx"]))
+
+
+def pointwise_logpdf(res, transformed):
+    """logpdf(x) against the library density (scipy.stats) of the base at an independently computed T x"""
+    out = []
+    if "lp_exc" in res:
+        return [("exception", "logpdf raised " + res["lp_exc"])]
+    if "lp_points" not in res:
+        return out
+    for x, got, lb, ld in zip(res["points"], res["lp_points"], res["lp_base_at_Tx"], res["lp_logdet"]):
+        got, lb, ld = unhex(got), unhex(lb), unhex(ld)
+        if close(got, lb + ld, lp_tol(lb, ld)):
+            continue
+        if transformed and close(got, lb, lp_tol(lb)):
+            out.append(("logpdf@no-jacobian", "logpdf(%r) = %r is the base density at T x without log T'(x) = %r" % (unhex(x), got, ld)))
+        else:
+            out.append(("logpdf-pointwise", "logpdf(%r) = %r, library density %r (+ log-determinant %r)" % (unhex(x), got, lb, ld)))
+        break
+    return out
+
+
 def oracle_det(c, res):
     out = []
+    for x, lp, ld, llp, lld in zip(res["points"], res["base_lp"], res["logd"], res.get("lib_lp", []), res.get("lib_logd", [])):
+        if not close(unhex(lp), unhex(llp), lp_tol(unhex(llp))):
+            out.append(("det-base-logpdf", "base.logpdf(T x) = %r at x = %r, library density %r" % (unhex(lp), unhex(x), unhex(llp))))
+        if not close(unhex(ld), unhex(lld), 1e-9 * max(1.0, abs(unhex(lld)))):
+            out.append(("logdet", "log-determinant %r at x = %r, library value %r" % (unhex(ld), unhex(x), unhex(lld))))
     for x, ld, fd, fac, lp in zip(res["points"], res["logd"], res["fd_logd"], res["factor"], res["base_lp"]):
         ld, fd, fac, lp = unhex(ld), unhex(fd), unhex(fac), unhex(lp)
         if not close(ld, fd, 1e-5 * max(1.0, abs(fd))):
@@ -892,8 +1263,10 @@ def c_expr(e):
 def c_tabs(t):
     t1 = lambda rows: clist([cpair(cf(k), cf(v)) for k, v in rows])  # noqa
     ib = clist(["(%s, %s, (%s, %s))" % (cf(a), cf(b), cf(x), cf(y)) for a, b, x, y in t["ib"]])
-    return "(mktabs %s %s %s %s %s %s %s %s %s)" % (t1(t["sq"]), t1(t["log"]), t1(t["exp"]), t1(t["log1p"]), t1(t["ipl"]), ib,
-                                                 t1(t.get("log10", [])), t1(t.get("ndtri", [])), t1(t.get("normpdf", [])))
+    bl = clist(["(%s, %s, %s)" % (cf(a), cf(b), cf(v)) for a, b, v in t.get("betaln", [])])
+    return "(mktabs %s %s %s %s %s %s %s %s %s %s %s)" % (
+        t1(t["sq"]), t1(t["log"]), t1(t["exp"]), t1(t["log1p"]), t1(t["ipl"]), ib,
+        t1(t.get("log10", [])), t1(t.get("ndtri", [])), t1(t.get("normpdf", [])), t1(t.get("gammaln", [])), bl)
 
 
 def env_ids(env):
@@ -910,6 +1283,8 @@ def env_ids(env):
 
 def coq_alg(c, res):
     """one Coq case per named expression"""
+    if c.get("mixed"):
+        return []      # numpy broadcasting between messages of different shapes is judged by the oracle only
     ids = env_ids(res["env"])
     idmap = lambda i: i if i in ids else -1  # noqa
     envs = clist([c_mval(e, idmap) for e in res["env"]])
@@ -931,13 +1306,16 @@ def coq_alg(c, res):
 
 
 def coq_proj(c, res):
-    if "ok" not in res:
-        return "CProjExc %s" % CFAM[c["fam"]] if c.get("t") is None else None
-    d = res["ok"]
-    b = base_of(d)
     X = c["samples"]
     n, dd = len(X), len(X[0])
     LW = c["log_weights"] or [[hx(0.0)] * dd for _ in range(n)]
+    colsx0 = clist([cpair(clist([cf(X[i][j]) for i in range(n)]), clist([cf(LW[i][j]) for i in range(n)])) for j in range(dd)])
+    if "ok" not in res:
+        if c.get("t") is None:
+            return "CProjExc %s" % CFAM[c["fam"]]
+        return "CTProjExc %s %s %s %s" % (c_tabs(res["tabs"]), CFAM[c["fam"]], cbool(c["scalar"]), colsx0)
+    d = res["ok"]
+    b = base_of(d)
     colsx = clist([cpair(clist([cf(X[i][j]) for i in range(n)]), clist([cf(LW[i][j]) for i in range(n)])) for j in range(dd)])
     lns = b["log_norm"] if isinstance(b["log_norm"], list) else [b["log_norm"]]
     obs = "%s %s %s %s %s" % (clist([clist([cf(x) for x in e]) for e in b["elems"]]), clist([cf(x) for x in lns]),
@@ -1020,7 +1398,9 @@ def run(ctx):
         "prior) with ids, limits and log_norm, plus the abstract expressions of one algebraic law or a random expression tree; "
         "(proj) samples and log-weights projected by cls.project / TransformedMessage.project; (dens) a message whose reported "
         "density is integrated numerically; (det) points at which _transform_det / factor of a transformed message are compared "
-        "bit for bit with the model; (hist) query -> m[i] = value -> query [-> ...] histories on array messages, every query compared "
+        "bit for bit with the model; (lpdf) logpdf / pdf of scalar and array messages at scalar, array and batched points against scipy.stats and, "
+        "bit for bit, against the model's natural_logpdf, factor/_transform_det of transformed messages at array points; (mixed) array (op) "
+        "scalar messages and messages with parameters of different shapes; (hist) query -> m[i] = value -> query [-> ...] histories on array messages, every query compared "
         "bit for bit with a fresh message built from the current parameters and with the model. A case is non-trivial unless it is the a**1 law on a fixed message or a projection "
         "of fewer than 3 samples; distinct = distinct abstract input")
     ctx.trusted = [
@@ -1048,8 +1428,9 @@ def run(ctx):
     except (OSError, IndexError):
         pass
     built = ctx.build()
-    n_alg, n_proj, n_dens, n_det, n_hist = (420, 150, 60, 80, 120) if not thorough else (2600, 900, 320, 500, 800)
-    cases = gen_alg(ctx, n_alg) + gen_proj(ctx, n_proj) + gen_dens(ctx, n_dens) + gen_det(ctx, n_det) + gen_hist(ctx, n_hist)
+    n_alg, n_proj, n_dens, n_det, n_hist, n_lpdf, n_mix = (400, 150, 50, 70, 110, 160, 40) if not thorough else (2600, 900, 320, 500, 800, 1200, 200)
+    cases = gen_alg(ctx, n_alg) + gen_proj(ctx, n_proj) + gen_dens(ctx, n_dens) + gen_det(ctx, n_det) + gen_hist(ctx, n_hist) \
+        + gen_lpdf(ctx, n_lpdf) + gen_mixed(ctx, n_mix) + gen_mixedparam(ctx, n_mix)
     corpus_dir = os.path.join(common.VERIF, "corpus", "C17")
     if os.path.isdir(corpus_dir):
         for f in sorted(os.listdir(corpus_dir)):
@@ -1085,7 +1466,7 @@ def run(ctx):
         res = r["ok"]
         fails = []
         if kind == "alg":
-            msg = check_env(c, res)
+            msg = check_env(c, res) if not c.get("mixed") or True else None
             if msg:
                 fails.append(("construction", msg))
             fails += oracle_alg(c, res)
@@ -1099,6 +1480,14 @@ def run(ctx):
             if t:
                 coq_terms.append(t)
                 coq_idx.append(i)
+        elif kind == "lpdf":
+            fails += oracle_lpdf(c, res)
+            t = coq_lpdf(c, res)
+            if t:
+                coq_terms.append(t)
+                coq_idx.append(i)
+        elif kind == "mixedparam":
+            fails += oracle_mixedparam(c, res)
         elif kind == "hist":
             fails += oracle_hist(c, res)
             t = coq_hist(c, res)
